@@ -229,6 +229,29 @@ TEMPORAL_CTORS = {"datetime.datetime": sp.K_DATETIME, "datetime.date": sp.K_DATE
 
 
 class SerExecutor(ETreeMixin, Executor):
+    # ---------------------------------------------------------- worker closures --
+    def delegates_to(self, fuc, worker):
+        """The function under contract is `def f(p0, ...): [docstring] def worker(x): ...; return worker(p0)` (pure delegation)."""
+        body = [b for b in fuc.body if not (isinstance(b, ast.Expr) and isinstance(b.value, ast.Constant))]
+        defs = [b for b in body if isinstance(b, ast.FunctionDef)]
+        rest = [b for b in body if not isinstance(b, ast.FunctionDef)]
+        p0 = (fuc.args.posonlyargs + fuc.args.args)[0].arg if (fuc.args.posonlyargs + fuc.args.args) else None
+        return (len(defs) == 1 and defs[0] is worker and len(rest) == 1 and isinstance(rest[0], ast.Return) and isinstance(rest[0].value, ast.Call)
+                and isinstance(rest[0].value.func, ast.Name) and rest[0].value.func.id == worker.name and len(rest[0].value.args) == 1
+                and isinstance(rest[0].value.args[0], ast.Name) and rest[0].value.args[0].id == p0 and not rest[0].value.keywords
+                and len(worker.args.args) == 1 and not worker.args.kwonlyargs)
+
+    def inline_closure(self, st, f, args, kwargs, node):
+        fnode = f.a
+        if isinstance(fnode, ast.FunctionDef) and any(fnode is x for x in self.cur_fn_stack) and self.contract is not None and self.cur_fn_stack \
+                and isinstance(self.cur_fn_stack[0], ast.FunctionDef) and self.delegates_to(self.cur_fn_stack[0], fnode) and len(args) == 1 and not kwargs:
+            # recursion of the worker closure the function delegates to: by induction it computes what the function's own
+            # contract states for (x, the function's other arguments) -- PY-REC through the contract of the enclosing function
+            names = [p[0] for p in self.contract.params]
+            kw = {nm: st.frames[0].env[nm] for nm in names[1:] if nm in st.frames[0].env}
+            return self.apply_contract(st, self.contract, [args[0]], kw, node)
+        return super().inline_closure(st, f, args, kwargs, node)
+
     def as_bin(self, st, v):
         """Bin term of a bytes-like value in either representation (a `bytes` object produced by a library model, or a PV of
         kind Bytes), else None."""
@@ -476,6 +499,8 @@ class SerExecutor(ETreeMixin, Executor):
         name = t.name
         if name == "type" and len(args) == 1:
             return self.b_type(st, args, kwargs, node)
+        if name == "object" and not args and not kwargs:
+            return [(st, PTok("sentinel", fresh_name("object")))]          # a fresh object: identical only to itself
         if name == "str" and len(args) == 1:
             r = self.b_str(st, args[0], node)
             if r is not None:
@@ -543,6 +568,10 @@ class SerExecutor(ETreeMixin, Executor):
 
     # -------------------------------------------------------------- compare --
     def compare(self, st, op, a, b, node):
+        if op in ("Is", "IsNot", "Eq", "NotEq"):
+            r = self._sentinel_identity(a, b)
+            if r is not None:
+                return [(st, VBool(r if op in ("Is", "Eq") else z3.Not(r)))]
         if op in ("Is", "IsNot"):
             r = self._type_identity(a, b)
             if r is not None:
@@ -602,6 +631,14 @@ class SerExecutor(ETreeMixin, Executor):
             r = exact_type_term(a.b, n)
             if r is not None:
                 return r
+        return None
+
+    def _sentinel_identity(self, a, b):
+        sa, sb = isinstance(a, PTok) and a.what == "sentinel", isinstance(b, PTok) and b.what == "sentinel"
+        if sa and sb:
+            return z3.BoolVal(a.a == b.a)
+        if (sa or sb) and not isinstance(b if sa else a, VUnk):
+            return F
         return None
 
     def _type_identity(self, a, b):
